@@ -108,6 +108,7 @@ func (rp *reporter) guard(idx int, where string, ctx func() any, fn func()) (fai
 type trieCase struct {
 	Poseidon bool
 	Commit   bool
+	Twins    bool
 	Items    []lib.KV // sorted
 }
 
@@ -171,6 +172,18 @@ func genTrieCase(rng *rand.Rand, idx int) trieCase {
 			v = lib.F(0x40 + uint64(rng.IntN(1<<20)))
 		}
 		m[k.String()] = lib.KV{K: k, V: v}
+	}
+	// twin leaves: two keys that differ in exactly one bit (not the last), carry the same
+	// value and have no other leaf below their common parent, so that the two sibling
+	// subtrees are identical and share one node hash (the proof set is keyed by hash)
+	if n >= 2 && rng.IntN(6) == 0 {
+		b := randFelt(rng).BigInt(new(big.Int))
+		j := 1 + rng.IntN(24)
+		v := lib.F(1 + uint64(rng.IntN(3)))
+		t := new(big.Int).SetBit(new(big.Int).Set(b), j, b.Bit(j)^1)
+		m[b.String()] = lib.KV{K: b, V: v}
+		m[t.String()] = lib.KV{K: t, V: v}
+		c.Twins = true
 	}
 	c.Items = lib.SortedKVs(m)
 	return c
